@@ -92,16 +92,18 @@ def run_property(pid, tier, seed, ctx_cache={}):
         "wall_s": round(time.time() - t0, 2),
         "violations": len(new_viol),
     }
-    os.makedirs(os.path.join(VERIF, "evidence"), exist_ok=True)
-    with open(os.path.join(VERIF, "evidence", pid + ".json"), "w") as f:
+    evdir = os.environ.get("VERIF_EVIDENCE", os.path.join(VERIF, "evidence"))
+    os.makedirs(evdir, exist_ok=True)
+    with open(os.path.join(evdir, pid + ".json"), "w") as f:
         json.dump(ev, f, indent=1)
     # verdict
     for o in reported_known:
         print("KNOWN-FINDING: property=%s %s -- %s" % (pid, o.key, known_keys[o.key].get("what", o.detail)))
     rc = 0
     if new_viol:
-        os.makedirs(os.path.join(VERIF, "replay"), exist_ok=True)
-        rp = os.path.join(VERIF, "replay", "%s_%s.json" % (pid, tier))
+        rdir = os.environ.get("VERIF_REPLAY", os.path.join(VERIF, "replay"))
+        os.makedirs(rdir, exist_ok=True)
+        rp = os.path.join(rdir, "%s_%s.json" % (pid, tier))
         with open(rp, "w") as f:
             json.dump({"property": pid, "tier": tier, "violations": [{"key": o.key, "detail": o.detail, "generator": meta.get("anchor")} for o in new_viol[:200]],
                        "count": len(new_viol)}, f, indent=1)
